@@ -158,7 +158,7 @@ def check(code, reg, o, want=("load", "classes", "fields", "keys", "types", "def
                 for lab_, g_ in groups.items():
                     if len({fold(k) for k in g_}) == 1:
                         kinds.add("folded-collision")
-                    elif any(k[:1].isdigit() or (_ud(k)[:1].isdigit() if cu else False) for k in g_):
+                    elif any(_re.sub(r"\W", "", _ud(k) if cu else k)[:1].isdigit() for k in g_):     # first WORD character is a digit
                         kinds.add("digit-spelled-collision")
                     else:
                         kinds.add("field-collision")
